@@ -43,13 +43,16 @@ class FanoutCache:
             # Does the shard hold a size limit? Its database may exist without
             # one when the process that created it died while doing so.
             path = op.join(shard_directory, DBNAME)
+            tables = 'SELECT name FROM sqlite_master WHERE name = "Settings"'
             select = 'SELECT value FROM Settings WHERE key = "size_limit"'
-            rows = []
-            if op.exists(path):
-                with cl.closing(sqlite3.connect(path, timeout=timeout)) as con:
-                    with cl.suppress(sqlite3.OperationalError):
-                        rows = con.execute(select).fetchall()
-            return bool(rows)
+            if not op.exists(path):
+                return False
+            stored = True  # A database that is busy is in use: leave it alone.
+            with cl.closing(sqlite3.connect(path, timeout=timeout)) as con:
+                with cl.suppress(sqlite3.OperationalError):
+                    names = con.execute(tables).fetchall()
+                    stored = bool(names and con.execute(select).fetchall())
+            return stored
 
         def shard_settings(shard_directory):
             # Keep the size limit stored in an existing shard unless a new one
